@@ -27,6 +27,7 @@ RULE += ("  Unit correspondence of Model/Creators.v (the creator-level theorems 
          "clock and the enumeration order of every directory fixed by a runner-side patch of os.listdir/os.scandir and handed to "
          "the model as the order of its entry lists; the extracted creator composed with Model/Bencode.v encode predicts the BYTES "
          "of the written file -- compared byte for byte.")
+RULE += V.RULE_SCALE
 TRUSTED_BASE = V.TRUSTED_BASE + [
     "hand-written models Model/Creators.v (the _traverse / assemble methods of TorrentFileV2, TorrentFileHybrid and "
     "TorrentAssembler, MetaFile.__init__, sort_meta), Model/Bencode.v (pyben's encoder) and Spec/PathSem.v (name and path "
@@ -52,6 +53,7 @@ def run(ctx, model_ok):
     if ctx.tier == "thorough":
         ctx.exhaustive = True
     V.require_classes(ctx, V.REQUIRED_V2 + V.REQUIRED_CREATORS)
+    V.require_classes(ctx, V.REQUIRED_SCALE, minimum=1)      # the payloads at scale (piece lengths 2 .. 32 MiB) were reached
     # the creators unit correspondence counts its own boundary classes (after the end-to-end requirement above)
     quick = ctx.tier == "quick"
     cc.unit_for(ctx, model_ok, CREATOR_KINDS, n=UNIT_N[0] if quick else UNIT_N[1], budget=90000 if quick else 300000,
